@@ -86,6 +86,9 @@ pub struct Pki {
     /// a TLS origin for "origin.test" and a TLS CONNECT proxy for "proxy.test", both with valid private-CA certificates
     pub origin2_port: u16,
     pub proxy2_port: u16,
+    /// a peer configured as an https proxy that speaks no TLS at all (answers a ClientHello with plain HTTP, and plain
+    /// HTTP requests with 200)
+    pub impostor_port: u16,
     /// TLS listeners on [::1] presenting a private-CA certificate: nameOK -> port (address in the certificate / a DNS name only)
     pub v6_ports: Vec<(bool, u16)>,
     /// (tls13, nameOK) -> port of a peer that presents the genuine private-CA certificate but signs with another key
@@ -316,6 +319,27 @@ fn pki_init() -> &'static Pki {
             good2.push(l.local_addr().unwrap().port());
             std::thread::spawn(move || serve_tls(acc, l));
         }
+        let il = TcpListener::bind("127.0.0.1:0").unwrap();
+        let impostor_port = il.local_addr().unwrap().port();
+        std::thread::spawn(move || {
+            for s in il.incoming() {
+                let Ok(mut s) = s else { continue };
+                std::thread::spawn(move || {
+                    s.set_read_timeout(Some(Duration::from_secs(2))).ok();
+                    let mut b = [0u8; 2048];
+                    let n = s.read(&mut b).unwrap_or(0);
+                    if n > 0 && b[0] == 0x16 {
+                        let _ = s.write_all(b"HTTP/1.1 400 Bad Request\r\nContent-Length: 0\r\n\r\n");
+                    } else if n > 0 && b.starts_with(b"CONNECT ") {
+                        let _ = s.write_all(b"HTTP/1.1 200 Connection established\r\n\r\n");
+                        let _ = s.read(&mut b);
+                    } else if n > 0 {
+                        let _ = s.write_all(b"HTTP/1.1 200 OK\r\nContent-Length: 2\r\nConnection: close\r\n\r\nok");
+                    }
+                    let _ = s.shutdown(std::net::Shutdown::Both);
+                });
+            }
+        });
         // origins named by an IPv6 literal: the certificate carries the address, or only a DNS name
         let mut v6_ports = Vec::new();
         for name_ok in [true, false] {
@@ -344,7 +368,7 @@ fn pki_init() -> &'static Pki {
                 forged_ports.push(((tls13, name_ok), forged::start(cert.to_der().unwrap(), other.private_key_to_pkcs8().unwrap(), tls13)));
             }
         }
-        Pki { ca_pem: ca.to_pem().unwrap(), ca_der: ca.to_der().unwrap(), self_certs, ports, proxy_port, v6_ports, forged_ports, origin2_port: good2[0], proxy2_port: good2[1] }
+        Pki { ca_pem: ca.to_pem().unwrap(), ca_der: ca.to_der().unwrap(), self_certs, ports, proxy_port, v6_ports, forged_ports, origin2_port: good2[0], proxy2_port: good2[1], impostor_port }
     })
 }
 
@@ -491,6 +515,11 @@ fn run_one(sc: &Value, p: &'static Pki, port: u16, url_host: &str, tlsver: &str)
             "tls-proxy-good" => {
                 ps = ps.https_proxy(format!("https://proxy.test:{}", p.proxy2_port).parse::<url::Url>().unwrap());
                 format!("https://{}:{}/x", url_host, port)
+            }
+            // the configured https proxy does not speak TLS: nothing may be sent to it in clear instead
+            "httpsproxy-plain" => {
+                ps = ps.http_proxy(format!("https://good.test:{}", p.impostor_port).parse::<url::Url>().unwrap());
+                "http://plain.test/x".to_string()
             }
             "httpsproxy" => {
                 // the TLS listener plays an https proxy for a plain http URL: its certificate must match the proxy's name
